@@ -8,6 +8,7 @@ import (
 
 	mocker "github.com/tencent/goom"
 	"github.com/tencent/goom/arg"
+	"github.com/tencent/goom/zzverif/c02/pz"
 	"github.com/tencent/goom/zzverif/vmon"
 )
 
@@ -61,6 +62,21 @@ func targets() []*tgt {
 			ocb: func() interface{} { return func(t *CT, a int) int { return (*ph)(t, a) | marker } },
 			ph:  ph, phAddr: vmon.FuncCodePtr(*ph), recvIsParam: true})
 	}
+	// unexported functions addressed by name: the same name in this package and in another one (Pkg override)
+	ts = append(ts, &tgt{name: "ExportFunc(ufoo)", entry: vmon.FuncCodePtr(ufoo), call: ufoo, orig: func(a int) int { return a*9 + 400 },
+		handle: func(b *mocker.Builder) mocker.ExportedMocker {
+			return b.ExportFunc("ufoo").As(func(a int) int { return 0 })
+		},
+		cb:  func(v int) interface{} { return func(a int) int { return v } },
+		ocb: func() interface{} { return func(a int) int { return phf0(a) | marker } },
+		ph:  &phf0, phAddr: vmon.FuncCodePtr(phf0)})
+	ts = append(ts, &tgt{name: "Pkg(pz).ExportFunc(ufoo)", entry: pz.UfooEntry(), call: pz.Ufoo, orig: func(a int) int { return a*11 + 500 },
+		handle: func(b *mocker.Builder) mocker.ExportedMocker {
+			return b.Pkg("github.com/tencent/goom/zzverif/c02/pz").ExportFunc("ufoo").As(func(a int) int { return 0 })
+		},
+		cb:  func(v int) interface{} { return func(a int) int { return v } },
+		ocb: func() interface{} { return func(a int) int { return phf1(a) | marker } },
+		ph:  &phf1, phAddr: vmon.FuncCodePtr(phf1)})
 	return ts
 }
 
@@ -107,6 +123,9 @@ type world struct {
 	amb     []bool  // two builders touched the target and the statement does not settle who is in effect
 	touched [][]bool
 	phUsed  map[uintptr]bool
+	kept    map[[2]int]mocker.ExportedMocker // mocker objects the "user" held on to
+	sess    map[[2]int]bool                  // true: every instruction for (builder,target) goes through the kept object
+	rng     *vmon.Rng
 	hist    []string
 	bad     bool
 	maxLive int
@@ -119,6 +138,8 @@ func whenArg(t int) int    { return 50 + t }
 func newWorld(rep *vmon.Report, img *vmon.TextImage, ts []*tgt, ns []neighbour, nb int) *world {
 	w := &world{rep: rep, img: img, ts: ts, ns: ns, phUsed: phUsedGlobal}
 	w.amb = make([]bool, len(ts))
+	w.kept = map[[2]int]mocker.ExportedMocker{}
+	w.sess = map[[2]int]bool{}
 	for i := 0; i < nb; i++ {
 		w.bs = append(w.bs, mocker.Create())
 		w.cfgs = append(w.cfgs, make([]cfg, len(ts)))
@@ -265,26 +286,29 @@ func (w *world) apply(o op) {
 			if o.kind == "applyB" {
 				v += 1000
 			}
-			w.ts[o.t].handle(b).Apply(w.ts[o.t].cb(v))
+			if w.sess[[2]int{o.b, o.t}] {
+				w.hist[len(w.hist)-1] += "(kept handle)"
+			}
+			w.lookup(o.b, o.t).Apply(w.ts[o.t].cb(v))
 			w.cfgs[o.b][o.t] = cfg{mode: "cb", cbVal: v}
 			w.cur[o.t], w.amb[o.t] = o.b, false
 			w.touched[o.b][o.t] = true
 		case "origin":
 			t := w.ts[o.t]
 			w.phUsed[t.phAddr] = true
-			t.handle(b).Origin(t.ph).Apply(t.ocb())
+			w.lookup(o.b, o.t).Origin(t.ph).Apply(t.ocb())
 			w.cfgs[o.b][o.t] = cfg{mode: "ocb"}
 			w.cur[o.t], w.amb[o.t] = o.b, false
 			w.touched[o.b][o.t] = true
 		case "return", "when":
 			st := stale()
 			if o.kind == "return" {
-				w.ts[o.t].handle(b).Return(retVal(o.b, o.t))
+				w.lookup(o.b, o.t).Return(retVal(o.b, o.t))
 			} else {
 				if w.ts[o.t].recvIsParam {
-					w.ts[o.t].handle(b).When(arg.Any(), whenArg(o.t)).Return(whenVal(o.b, o.t))
+					w.lookup(o.b, o.t).When(arg.Any(), whenArg(o.t)).Return(whenVal(o.b, o.t))
 				} else {
-					w.ts[o.t].handle(b).When(whenArg(o.t)).Return(whenVal(o.b, o.t))
+					w.lookup(o.b, o.t).When(whenArg(o.t)).Return(whenVal(o.b, o.t))
 				}
 			}
 			c := w.cfgs[o.b][o.t]
@@ -304,18 +328,34 @@ func (w *world) apply(o op) {
 				w.cur[o.t], w.amb[o.t] = o.b, false
 			}
 		case "cancel":
-			w.ts[o.t].handle(b).Cancel()
+			w.lookup(o.b, o.t).Cancel()
 			w.release(o.b, o.t)
 		case "reset":
 			b.Reset()
 			for ti := range w.ts {
 				w.release(o.b, ti)
+				delete(w.kept, [2]int{o.b, ti})
+				delete(w.sess, [2]int{o.b, ti})
 			}
 		}
 	}()
 	if perr != nil {
 		w.viol("C02/operation-panicked", fmt.Sprintf("%s panicked: %v", o, perr))
 	}
+}
+
+// lookup asks the builder for the mocker of target t and remembers the object (the most recent one the "user" holds)
+func (w *world) lookup(bi, ti int) mocker.ExportedMocker {
+	k := [2]int{bi, ti}
+	if h, ok := w.kept[k]; ok && w.sess[k] {
+		return h // a "session": the user keeps working through the mocker object obtained first, also after its Cancel
+	}
+	h := w.ts[ti].handle(w.bs[bi])
+	w.kept[k] = h
+	if _, seen := w.sess[k]; !seen {
+		w.sess[k] = w.rng != nil && w.rng.Chance(1, 3)
+	}
+	return h
 }
 
 // release models X.Cancel(t) / X.Reset for one target
@@ -349,6 +389,11 @@ func (w *world) legal(o op) bool {
 		return true
 	}
 	c := w.cfgs[o.b][o.t]
+	if w.sess[[2]int{o.b, o.t}] && o.kind != "applyA" && o.kind != "applyB" && o.kind != "cancel" {
+		// stubbing through a mocker object after its own Cancel is not a use the statement covers
+		// (on the pinned tree the stale stub forwards to the patched function itself): sessions only Apply and Cancel
+		return false
+	}
 	switch o.kind {
 	case "return":
 		// Return right after a When chain extends the clause (chain state): not generated
@@ -395,6 +440,7 @@ func TestC02(t *testing.T) {
 	for h := 0; h < nh; h++ {
 		nb := 1 + rng.Intn(3)
 		w := newWorld(rep, img, ts, ns, nb)
+		w.rng = rng
 		shared := rng.Chance(1, 4) // a minority of histories lets two builders touch the same targets
 		n := 4 + rng.Intn(37)
 		for s := 0; s < n && !w.bad; s++ {
